@@ -111,7 +111,11 @@ def bulk_targets(tier, seed):
                   "storage": rng.choice(["RAM", "DISK"]),
                   "traj": rng.choice(["maximum", "revolve"])})
     rng.shuffle(T)
-    return T[:(len(T) if th else 260)]
+    T = T[:(len(T) if th else 260)]
+    for n in (1, 3, 6):
+        for c in ("SingleDiskCopy", "SingleDiskMove", "SingleMemory", "None"):
+            T.append({"cls": c, "n": n})
+    return T
 
 
 def cases(tier, seed):
@@ -361,8 +365,22 @@ def hist_neighbours(target, rng, ev):
             ev["neighbour_streams"] = ev.get("neighbour_streams", 0) + 1
         except Exception:
             ev["history_op_errors"] = ev.get("history_op_errors", 0) + 1
-    return [_strip(safe_stepper(dict(target)).run()),
-            _strip(safe_stepper(dict(target)).run())], None
+    first = _strip(safe_stepper(dict(target)).run())
+    # ... and the other order: the target is constructed first, then every
+    # neighbour is constructed (every second one also iterated), and only
+    # then is the target iterated
+    late = safe_stepper(dict(target))
+    keep = []
+    for j, c in enumerate(nb):
+        try:
+            st = safe_stepper(c)
+            if j % 2:
+                st.run()
+            keep.append(st)
+        except Exception:
+            pass
+    second = _strip(late.run())
+    return [first, second], keep
 
 
 def _strip(stream):
